@@ -100,7 +100,7 @@ type Vaxis struct {
 	mouseShapeNext   MouseShape
 	mouseShapeLast   MouseShape
 	appIDLast        appID
-	pastePending     bool
+	pastePending     int32
 	chClipboard      chan string
 	chSigWinSz       chan os.Signal
 	chSigKill        chan os.Signal
@@ -772,25 +772,25 @@ func (vx *Vaxis) handleSequence(seq ansi.Sequence) {
 	switch seq := seq.(type) {
 	case ansi.Print:
 		key := decodeKey(seq)
-		if vx.pastePending {
+		if atomicLoad(&vx.pastePending) {
 			key.EventType = EventPaste
 		}
 		vx.PostEventBlocking(key)
 	case ansi.C0:
 		key := decodeKey(seq)
-		if vx.pastePending {
+		if atomicLoad(&vx.pastePending) {
 			key.EventType = EventPaste
 		}
 		vx.PostEventBlocking(key)
 	case ansi.ESC:
 		key := decodeKey(seq)
-		if vx.pastePending {
+		if atomicLoad(&vx.pastePending) {
 			key.EventType = EventPaste
 		}
 		vx.PostEventBlocking(key)
 	case ansi.SS3:
 		key := decodeKey(seq)
-		if vx.pastePending {
+		if atomicLoad(&vx.pastePending) {
 			key.EventType = EventPaste
 		}
 		vx.PostEventBlocking(key)
@@ -915,11 +915,11 @@ func (vx *Vaxis) handleSequence(seq ansi.Sequence) {
 				}
 				switch seq.Parameters[0][0] {
 				case 200:
-					vx.pastePending = true
+					atomicStore(&vx.pastePending, true)
 					vx.PostEventBlocking(PasteStartEvent{})
 					return
 				case 201:
-					vx.pastePending = false
+					atomicStore(&vx.pastePending, false)
 					vx.PostEventBlocking(PasteEndEvent{})
 					return
 				}
@@ -992,7 +992,7 @@ func (vx *Vaxis) handleSequence(seq ansi.Sequence) {
 		}
 
 		key := decodeKey(seq)
-		if vx.pastePending {
+		if atomicLoad(&vx.pastePending) {
 			key.EventType = EventPaste
 		}
 		vx.PostEventBlocking(key)
